@@ -9,7 +9,7 @@ m={
  "setup_cmd":"cd /verif/vcgo && GOFLAGS=-mod=mod GOPROXY=off GOSUMDB=off GOTOOLCHAIN=local go build -o vcgo .",
  "hooks":{"guard":"verif","enable":"go build -tags verif: the hook commits add only comment-only contract files */contracts_verif.go (//go:build verif); vcgo loads /repo with -tags=verif",
    "baseline_off_cmd":"cd /repo && GOFLAGS=-mod=mod GOPROXY=off go test -vet=off -count=1 ./...","source_commits":hook_commits,"add_only":True},
- "engines":[{"name":"vcgo","path":"/verif/vcgo","serves_properties":sorted(claimed.keys()),"kind_free_text":"verification-condition generator over go/ssa (golang.org/x/tools v0.29.0) with Gobra-style contracts in comment-only files; obligations discharged by a portfolio of z3 4.8.12, z3 5.1.0, cvc5 1.0"}],
+ "engines":[{"name":"vcgo","path":"/verif/vcgo","serves_properties":sorted(claimed.keys()),"kind_free_text":"verification-condition generator over go/ssa (golang.org/x/tools v0.29.0) with Gobra-style contracts in comment-only files; obligations discharged by a portfolio of z3 4.8.12, z3 5.1.0, cvc5 1.0; failed obligations are replayed against the real code with go test -overlay; bounded stand-ins (curve tables, ICC profiles) run the real code over stated finite domains; one lemma (lemmas/Lifting.lean) is checked by Lean 4"}],
  "checks":[],
  "not_applicable":[],
  "notes":"Contract-based deductive verification of the real code; see DESIGN.md. Bounded stand-ins (labelled bounded in the evidence) are never counted as proved."
